@@ -25,7 +25,14 @@ cp "$S/demo_test.go" "$D/zz_seed_demo_test.go"
 if go test -vet=off -count=1 -run '^TestSeedDemo$' ./$D >/tmp/vs.$$.a 2>&1; then res demo_without_patch PASS; A=1; else res demo_without_patch FAIL; A=0; tail -5 /tmp/vs.$$.a; fi
 rm "$D/zz_seed_demo_test.go"
 git apply "$S/patch.diff" || { echo "patch does not apply"; exit 2; }
-if go test -vet=off -count=1 . ./pkg/... >/tmp/vs.$$.b 2>&1; then res suite_with_patch PASS; B=1; else res suite_with_patch FAIL; B=0; tail -15 /tmp/vs.$$.b; fi
+# the repository suite listens on a fixed TCP port: one run at a time on this machine, retry while somebody else holds the port
+for attempt in 1 2 3 4 5 6 7 8 9 10 11 12; do
+  if flock /tmp/mut-suite.lock go test -vet=off -count=1 . ./pkg/... >/tmp/vs.$$.b 2>&1; then B=1; break; fi
+  B=0
+  grep -q "address already in use" /tmp/vs.$$.b || break
+  sleep 20
+done
+if [ $B = 1 ]; then res suite_with_patch PASS; else res suite_with_patch FAIL; tail -15 /tmp/vs.$$.b; fi
 cp "$S/demo_test.go" "$D/zz_seed_demo_test.go"
 if go test -vet=off -count=1 -run '^TestSeedDemo$' ./$D >/tmp/vs.$$.c 2>&1; then res demo_with_patch PASS; C=0; else res demo_with_patch FAIL; C=1; grep -m3 -E 'Error:|FAIL|panic|zz_seed' /tmp/vs.$$.c | head -5; fi
 rm -f /tmp/vs.$$.*
